@@ -623,7 +623,7 @@ class MProcess(QOperation):
     def _check_shape(self, shape_left: Tuple[int], shape_right: Tuple[int]):
         if shape_left != shape_right:
             raise ValueError(
-                f"shape of MProcess of operands don't equal. shape of left={shape_left.shape}, shape of right={shape_right.shape}"
+                f"shape of MProcess of operands don't equal. shape of left={shape_left}, shape of right={shape_right}"
             )
 
     def _add_vec(self, other) -> List[np.ndarray]:
